@@ -334,6 +334,12 @@ def check(pid, tier, runs=None, budget_s=None, base_seed=None):
         if not same_violation(r2, sig):
             r3 = run_replay(exe, recpath, args=args, timeout_s=timeout_s)
             if not same_violation(r3, sig):
+                if sig.startswith("hang|engine.watchdog") and r2 and r3 and r2.get("verdict") == "ok" and r3.get("verdict") == "ok":
+                    # the real-time watchdog is a safety net against the engine itself hanging; liveness is decided by step
+                    # budgets.  The recorded schedule ran to completion twice: the original run was merely slow (machine load)
+                    log("[%s] watchdog time-out of seed %s did not reproduce (the recorded schedule completes): slow run, not an alarm" % (pid, r["seed"]))
+                    det.setdefault("watchdog_timeouts_not_reproduced", 0); det["watchdog_timeouts_not_reproduced"] += len(rs)
+                    continue
                 log("[%s] UNREPRODUCIBLE alarm sig=%s seed=%s msg=%s replay=%s" % (pid, sig, r["seed"], r.get("msg"), r2 and (r2.get("verdict"), signature(r2))))
                 rc = max(rc, 2); continue
         if kf:
